@@ -214,6 +214,7 @@ func (s *Stream) read() bool {
 	buf := s.readBuf()
 	last := len(buf) - 1
 	buf[last] = nul
+	verifYield("dec-stream:read")
 	n, err := s.r.Read(buf[:last])
 	s.length += int64(n)
 	if n == last {
